@@ -120,6 +120,8 @@ def gen_requests(rng: Any, services: dict[int, dict[int, Any]], n: int, big: boo
             out.append(bytes([0x27, sub]).hex())
             if rng.random() < 0.3:
                 out.append("3e00")
+            if rng.random() < 0.25:
+                out.append("dyn:idle:11.5")  # the tester thinks longer than the ECU's inactivity limit (10 s) before it sends the key
             out.append(f"dyn:sendkey:{sub + 1}:{'wrong' if rng.random() < 0.25 else 'right'}")
         else:
             out.append(valid_pdu(rng, services).hex())
@@ -233,6 +235,10 @@ class C14(Check):
                 for n, hx in enumerate(reqs):
                     if stop["flag"]:
                         break
+                    if hx.startswith("dyn:idle:"):
+                        await asyncio.sleep(float(hx.split(":")[2]))
+                        holder["idled"] = holder.get("idled", 0) + 1
+                        continue
                     if hx.startswith("dyn:sendkey:"):
                         _, _, sub_s, how = hx.split(":")
                         key = last_seed.get(k) or b"\x00"
@@ -323,6 +329,8 @@ class C14(Check):
                     bump(res["faults"], k, net.counters[k])
         if len(plan["clients"]) > 1:
             bump(res["faults"], "concurrent_clients", len(plan["clients"]))
+        if holder.get("idled"):
+            bump(res["faults"], "idle_beyond_inactivity_limit_between_seed_and_key", holder["idled"])
         return res
 
 
